@@ -58,62 +58,122 @@ K("gr.tracker_sequence3", ["C13", "C01"], "jxl-grid", GR_AT, GR_ATM, "sequence3_
   "same contract as gr.tracker_sequence, 3 operations", attrs=_alloc_attrs)
 
 # ---- MutableSubgrid (C02) ----
-_SG_BOUND = ("bounded:backing buffer <= 48 elements, every dimension/coordinate/offset/stride a 6-bit value (one-row grids with any usize stride: gr.ms.from_buf_*); "
-             "complete over element values and all geometries/arguments within the bound; every operation starts from an arbitrary well-formed grid, so contracts compose over nestings")
-_IN_ALLOC = " [harness precondition: pointers formed for EMPTY edge parts stay <= one-past-the-end, see DESIGN 2.2 / obs_ptr_add_leaves_allocation]"
+_QB = "backing buffer <= 24 elements, every dimension/coordinate/offset/stride a 5-bit value"
+_TB = "backing buffer <= 48 elements, every dimension/coordinate/offset/stride a 6-bit value"
+def _sg_bound(b, extra=""):
+    return ("bounded:" + b + " (one-row grids with any usize stride: from_buf harness)" + extra + "; complete over element values and all geometries/arguments within the bound; "
+            "every operation starts from an arbitrary well-formed grid, so contracts compose over nestings")
+_IN_ALLOC = " [harness precondition: pointers formed for EMPTY edge parts / zero-width rows stay <= one-past-the-end, see DESIGN 2.2 / obs_ptr_add_leaves_allocation]"
 _MS_ACC = ["MutableSubgrid::try_get_ref", "MutableSubgrid::get_ref", "MutableSubgrid::get", "MutableSubgrid::try_get_row",
            "MutableSubgrid::try_get_mut", "MutableSubgrid::try_get_row_mut", "MutableSubgrid::get_ptr_unchecked"]
 _ACC_C = ("; the result has exactly the specified (ptr, width, height, stride); its accessors (try_get_ref/get/try_get_row/try_get_mut/try_get_row_mut) at a symbolic (x, y): "
           "Some iff inside, address == base + off + y*stride + x < len, CBMC pointer checks on the dereference, a write changes exactly that buffer element (observed at a symbolic index)")
-def _ms(id, harness, fns, contract, kind=None, **kw):
-    K("gr.ms." + id, ["C02"], "jxl-grid", GR_MS, GR_MSM, harness, kind or _SG_BOUND, fns, contract, **kw)
-_LEM = "bounded:6-bit values (0..=63) for every dimension, coordinate, offset and stride, buffer <= 48 -- pure arithmetic lemma over the abstract geometry, stride enumerated concretely"
-_ms("lemma_sub", "lemma_sub", [], "sub-rectangle (x0, y0, w, h) of a well-formed grid: well-formed if non-empty; element (x, y) == parent element (x0+x, y0+y), inside the parent and the buffer", kind=_LEM)
-_ms("lemma_injective", "lemma_injective", [], "distinct coordinates of a well-formed grid are distinct buffer elements (=> coordinate-disjoint parts are memory-disjoint)", kind=_LEM)
-_ms("lemma_split_partition", "lemma_split_partition", [], "the two split rectangles are sub-rectangles of the parent and every parent coordinate is in exactly one", kind=_LEM)
-_ms("lemma_groups_partition", "lemma_groups_partition", [], "group rectangles are sub-rectangles, pairwise coordinate-disjoint; (px, py) lies in group (px/gw, py/gh); ceil(w/gw) x ceil(h/gh) groups cover", kind=_LEM)
-_ms("lemma_merge", "lemma_merge", [], "adjacent well-formed grids (merge's accepted condition) give a well-formed grid that is exactly their union", kind=_LEM)
-_ms("lemma_vectored", "lemma_vectored", [], "aligned origin, width and stride multiples of 4 => vector grid well-formed; vector (x, y) == f32 elements (4x..4x+3, y), all inside the buffer", kind=_LEM)
-for _t, _tier in [("i16", "quick"), ("f32", "thorough")]:
-    _ms("from_buf_" + _t, "ms_from_buf_" + _t, ["MutableSubgrid::from_buf", "MutableSubgrid::new", "MutableSubgrid::empty"] + _MS_ACC,
-        "requires width <= stride, (w == 0 || h == 0) ? len == 0 : stride*(h-1)+w <= len (stride: all of usize for one-row grids); ensures geometry (0, w, h, stride) inside the buffer, split_base None" + _ACC_C, tier=_tier)
-    _ms("subgrid_" + _t, "ms_subgrid_" + _t, ["MutableSubgrid::subgrid"] + _MS_ACC,
+def _ms(id, harness, fns, contract, kind, **kw):
+    K("gr.ms." + id, ["C02"], "jxl-grid", GR_MS, GR_MSM, harness, kind, fns, contract, **kw)
+_GUARD = (" -- guard proof: the documented assertion in the real code is expected to fail for bad arguments (not attributable to C02), "
+          "the tagged postcondition 'returned => arguments were in range' must hold")
+# (suffix, tier, bound, timeout)
+_MS_VARIANTS = [("q", "quick", _QB, 300), ("i16", "thorough", _TB, 1200), ("f32", "thorough", _TB, 1200)]
+for _sfx, _tier, _b, _to in _MS_VARIANTS:
+    _k = _sg_bound(_b); _kw = dict(tier=_tier, timeout=_to)
+    _ms("from_buf_" + _sfx, "ms_from_buf_" + _sfx, ["MutableSubgrid::from_buf", "MutableSubgrid::new", "MutableSubgrid::empty"] + _MS_ACC,
+        "requires width <= stride, (w == 0 || h == 0) ? len == 0 : stride*(h-1)+w <= len (stride: all of usize for one-row grids); ensures geometry (0, w, h, stride) inside the buffer, split_base None"
+        + _ACC_C + _IN_ALLOC, _k, **_kw)
+    _ms("subgrid_" + _sfx, "ms_subgrid_" + _sfx, ["MutableSubgrid::subgrid"] + _MS_ACC,
         "requires left <= right <= width, top <= bottom <= height for all 9 Bound combinations per axis; ensures result == sub-rectangle (left, top, right-left, bottom-top) of lemma_sub"
-        + _ACC_C + _IN_ALLOC, tier=_tier)
+        + _ACC_C + _IN_ALLOC, _k, **_kw)
     for _d, _D in [("h", "horizontal"), ("v", "vertical")]:
-        _ms("split_%s_%s" % (_d, _t), "ms_split_%s_%s" % (_d, _t), ["MutableSubgrid::split_" + _D] + _MS_ACC,
+        _ms("split_%s_%s" % (_d, _sfx), "ms_split_%s_%s" % (_d, _sfx), ["MutableSubgrid::split_" + _D] + _MS_ACC,
             "requires at <= width/height; ensures the two parts are exactly the rectangles of lemma_split_partition (inside the parent, disjoint, covering), share the split base"
-            + _ACC_C + _IN_ALLOC, tier=_tier)
-        _ms("split_%s_in_place_%s" % (_d, _t), "ms_split_%s_in_place_%s" % (_d, _t), ["MutableSubgrid::split_%s_in_place" % _D] + _MS_ACC,
-            "same contract; self becomes the first part" + _ACC_C + _IN_ALLOC, tier=_tier)
-        _ms("merge_%s_%s" % (_d, _t), "ms_merge_%s_%s" % (_d, _t), ["MutableSubgrid::merge_%s_in_place" % _D, "MutableSubgrid::split_%s_in_place" % _D] + _MS_ACC,
-            "merge(split_in_place(g, at)) == g for every at (merge never rejects a genuine split)" + _ACC_C + _IN_ALLOC, tier=_tier)
-    _ms("groups_" + _t, "ms_groups_" + _t, ["MutableSubgrid::into_groups", "MutableSubgrid::into_groups_with_fixed_count"] + _MS_ACC,
-        "requires gw, gh >= 1; ensures ceil(w/gw)*ceil(h/gh) groups row-first, group (gx, gy) is exactly rectangle (gx*gw, gy*gh, min(gw, rest), min(gh, rest)) of lemma_groups_partition "
-        "(inside the parent, pairwise disjoint, covering)" + _ACC_C + _IN_ALLOC, kind=_SG_BOUND + "; <= 12 groups", tier=_tier)
-    _ms("groups_fixed_" + _t, "ms_groups_fixed_" + _t, ["MutableSubgrid::into_groups_with_fixed_count"] + _MS_ACC,
-        "any num_cols x num_rows: exactly that many groups; group (gx, gy) is the rectangle clamped to the parent (out-of-range groups empty)"
-        + _ACC_C + _IN_ALLOC, kind=_SG_BOUND + "; <= 12 groups", tier=_tier)
-    _ms("swap_" + _t, "ms_swap_" + _t, ["MutableSubgrid::swap", "MutableSubgrid::get_ptr"],
-        "requires both coordinates inside; ensures exactly the two mapped buffer elements are exchanged (same cell: no-op), nothing else changes", tier=_tier)
-    _ms("reborrow_" + _t, "ms_reborrow_" + _t, ["MutableSubgrid::borrow_mut", "MutableSubgrid::as_shared", "SharedSubgrid::new"] + _MS_ACC,
-        "borrow_mut / as_shared view exactly the same elements (geometry preserved)" + _ACC_C, tier=_tier)
-_GUARD = ("bounded:backing buffer <= 48 elements, 6-bit geometry and arguments -- guard proof: the documented assertion in the real code is expected to fail for bad arguments "
-          "(not attributable to C02), the tagged postcondition 'returned => arguments were in range' must hold")
-_ms("from_buf_rejects", "ms_from_buf_rejects", ["MutableSubgrid::from_buf"],
-    "from_buf returns only if width <= stride and the area lies inside the buffer", kind=_GUARD)
-_ms("subgrid_rejects", "ms_subgrid_rejects", ["MutableSubgrid::subgrid"], "subgrid returns only for ranges inside the grid", kind=_GUARD)
+            + _ACC_C + _IN_ALLOC, _k, **_kw)
+        _ms("split_%s_in_place_%s" % (_d, _sfx), "ms_split_%s_in_place_%s" % (_d, _sfx), ["MutableSubgrid::split_%s_in_place" % _D] + _MS_ACC,
+            "same contract; self becomes the first part" + _ACC_C + _IN_ALLOC, _k, **_kw)
+        _ms("merge_%s_%s" % (_d, _sfx), "ms_merge_%s_%s" % (_d, _sfx), ["MutableSubgrid::merge_%s_in_place" % _D, "MutableSubgrid::split_%s_in_place" % _D] + _MS_ACC,
+            "merge(split_in_place(g, at)) == g for every at (merge never rejects a genuine split)" + _ACC_C + _IN_ALLOC, _k, **_kw)
+    _ms("swap_" + _sfx, "ms_swap_" + _sfx, ["MutableSubgrid::swap", "MutableSubgrid::get_ptr"],
+        "requires both coordinates inside; ensures exactly the two mapped buffer elements are exchanged (same cell: no-op), nothing else changes", _k, **_kw)
+    _ms("reborrow_" + _sfx, "ms_reborrow_" + _sfx, ["MutableSubgrid::borrow_mut", "MutableSubgrid::as_shared", "SharedSubgrid::new"] + _MS_ACC,
+        "borrow_mut / as_shared view exactly the same elements (geometry preserved)" + _ACC_C, _k, **_kw)
+for _sfx, _tier, _b, _to in [("q", "quick", _QB, 300), ("t", "thorough", _TB, 1200)]:
+    _kw = dict(tier=_tier, timeout=_to)
+    _ms("into_i32_" + _sfx, "ms_into_i32_" + _sfx, ["MutableSubgrid::into_i32"] + _MS_ACC, "same geometry, same elements reinterpreted bit for bit" + _ACC_C, _sg_bound(_b), **_kw)
+    _ms("as_vectored_" + _sfx, "ms_as_vectored_" + _sfx, ["MutableSubgrid::as_vectored", "SimdVector::available (__m128)"] + _MS_ACC,
+        "Some iff origin 16-byte aligned and width, stride multiples of 4; vector (x, y) starts at f32 element (4x, y), all 4 lanes inside the buffer (lemma_vectored); "
+        "16-byte reads/writes of __m128 elements under CBMC pointer checks (plain pointer cast, no intrinsics)", _sg_bound(_b), **_kw)
+    _lem = "bounded:" + _b + " -- pure arithmetic lemma over the abstract geometry (no code under test), stride enumerated concretely"
+    _ms("lemma_sub_" + _sfx, "lemma_sub_" + _sfx, [], "sub-rectangle (x0, y0, w, h) of a well-formed grid: well-formed if non-empty; element (x, y) == parent element (x0+x, y0+y), inside the parent and the buffer", _lem, **_kw)
+    _ms("lemma_injective_" + _sfx, "lemma_injective_" + _sfx, [], "distinct coordinates of a well-formed grid are distinct buffer elements (=> coordinate-disjoint parts are memory-disjoint)", _lem, **_kw)
+    _ms("lemma_merge_" + _sfx, "lemma_merge_" + _sfx, [], "adjacent well-formed grids (merge's accepted condition) give a well-formed grid that is exactly their union", _lem, **_kw)
+    _ms("lemma_vectored_" + _sfx, "lemma_vectored_" + _sfx, [], "aligned origin, width and stride multiples of 4 => vector grid well-formed; vector (x, y) == f32 elements (4x..4x+3, y), all inside the buffer", _lem, **_kw)
+    _ms("lemma_split_partition_" + _sfx, "lemma_split_partition_" + _sfx, [], "the two split rectangles are sub-rectangles of the parent and every parent coordinate is in exactly one", _lem)
+    _ms("lemma_groups_partition_" + _sfx, "lemma_groups_partition_" + _sfx, [], "group rectangles are sub-rectangles, pairwise coordinate-disjoint; (px, py) lies in group (px/gw, py/gh); ceil(w/gw) x ceil(h/gh) groups cover", _lem)
+_gk = "bounded:" + _QB + _GUARD
+_ms("from_buf_rejects", "ms_from_buf_rejects", ["MutableSubgrid::from_buf"], "from_buf returns only if width <= stride and the area lies inside the buffer", _gk)
+_ms("subgrid_rejects", "ms_subgrid_rejects", ["MutableSubgrid::subgrid"], "subgrid returns only for ranges inside the grid", _gk)
 _ms("split_rejects", "ms_split_rejects", ["MutableSubgrid::split_horizontal", "MutableSubgrid::split_horizontal_in_place",
-    "MutableSubgrid::split_vertical", "MutableSubgrid::split_vertical_in_place"], "split_* return only for at <= width/height", kind=_GUARD)
-_ms("groups_rejects", "ms_groups_rejects", ["MutableSubgrid::into_groups"], "into_groups never returns for a zero group size (no division by zero)", kind=_GUARD)
-_ms("swap_rejects", "ms_swap_rejects", ["MutableSubgrid::swap"], "swap returns only for coordinates inside the grid", kind=_GUARD)
-_ms("merge_h_guard", "ms_merge_h_guard", ["MutableSubgrid::merge_horizontal_in_place"] + _MS_ACC,
-    "for ANY two well-formed grids and split bases: merge returns only if same stride, same height, right.ptr == self(width, 0), widths fit the stride; "
-    "then the merged grid is exactly the union of lemma_merge" + _ACC_C, kind=_GUARD)
-_ms("merge_v_guard", "ms_merge_v_guard", ["MutableSubgrid::merge_vertical_in_place"] + _MS_ACC,
-    "for ANY two well-formed grids: merge returns only if same stride, same width, bottom.ptr == self(0, height); then the merged grid is exactly the union of lemma_merge" + _ACC_C,
-    kind=_GUARD)
-_ms("into_i32", "ms_into_i32", ["MutableSubgrid::into_i32"] + _MS_ACC, "same geometry, same elements reinterpreted bit for bit" + _ACC_C)
-_ms("as_vectored", "ms_as_vectored", ["MutableSubgrid::as_vectored", "SimdVector::available (__m128)"] + _MS_ACC,
-    "Some iff origin 16-byte aligned and width, stride multiples of 4; vector (x, y) starts at f32 element (4x, y), all 4 lanes inside the buffer (lemma_vectored); "
-    "16-byte reads/writes of __m128 elements under CBMC pointer checks (plain pointer cast, no intrinsics)")
+    "MutableSubgrid::split_vertical", "MutableSubgrid::split_vertical_in_place"], "split_* return only for at <= width/height", _gk)
+_ms("groups_rejects_w", "ms_groups_rejects_w", ["MutableSubgrid::into_groups"], "into_groups(0, 3) never returns (no division by zero)", _gk)
+_ms("groups_rejects_h", "ms_groups_rejects_h", ["MutableSubgrid::into_groups"], "into_groups(2, 0) never returns (no division by zero)", _gk)
+_GF_C = ("any symbolic group size (incl. 0 and larger than the grid): exactly COLS*ROWS groups row-first; group (gx, gy) is exactly the rectangle "
+         "(min(gx*gw, w), min(gy*gh, h), min(gw, rest), min(gh, rest)) of lemma_groups_partition: inside the parent, pairwise disjoint; out-of-range groups empty; all share the split base")
+for _h, _tier, _b in [("2x2_q", "quick", _QB), ("3x2_q", "quick", _QB), ("1x3_q", "quick", _QB), ("2x2_f32", "thorough", _TB), ("3x3_i16", "thorough", _TB),
+                      ("4x2_f32", "thorough", _TB), ("0x2_i16", "thorough", _TB), ("2x0_i16", "thorough", _TB)]:
+    _ms("groups_fixed_" + _h, "ms_groups_fixed_" + _h, ["MutableSubgrid::into_groups_with_fixed_count"] + _MS_ACC, _GF_C + _ACC_C + _IN_ALLOC,
+        _sg_bound(_b, "; CONCRETE group count " + _h.split("_")[0] + " (cols x rows): a symbolic count exhausts CBMC's memory in Vec"), tier=_tier, timeout=300 if _tier == "quick" else 1200)
+for _h, _tier, _b in [("5x3_by_2x2_q", "quick", _QB), ("3x2_by_8x8_q", "quick", _QB), ("4x3_by_1x2_q", "quick", _QB), ("0x3_by_2x2_q", "quick", _QB),
+                      ("7x5_by_3x2_f32", "thorough", _TB), ("9x4_by_4x4_i16", "thorough", _TB)]:
+    _ms("groups_" + _h, "ms_groups_" + _h, ["MutableSubgrid::into_groups", "MutableSubgrid::into_groups_with_fixed_count"] + _MS_ACC,
+        "ceil(w/gw) x ceil(h/gh) groups row-first, group (gx, gy) is exactly the rectangle (gx*gw, gy*gh, min(gw, rest), min(gh, rest)): inside the parent, disjoint, covering (lemma_groups_partition)"
+        + _ACC_C, _sg_bound(_b, "; CONCRETE width x height and group size " + _h.rsplit("_", 1)[0] + " (into_groups divides by the group size: a symbolic 64-bit divisor does not close); symbolic origin, stride, buffer length, contents"),
+        tier=_tier, timeout=300 if _tier == "quick" else 1200)
+_ms("swap_rejects", "ms_swap_rejects", ["MutableSubgrid::swap"], "swap returns only for coordinates inside the grid", _gk)
+for _d, _D, _c in [("h", "horizontal", "same stride, same height, right.ptr == self(width, 0), widths fit the stride"), ("v", "vertical", "same stride, same width, bottom.ptr == self(0, height)")]:
+    _ms("merge_%s_guard" % _d, "ms_merge_%s_guard" % _d, ["MutableSubgrid::merge_%s_in_place" % _D] + _MS_ACC,
+        "for ANY two well-formed grids and split bases: merge returns only if " + _c + "; then the merged grid is exactly the union of lemma_merge" + _ACC_C, _gk)
+    _ms("merge_%s_guard_t" % _d, "ms_merge_%s_guard_t" % _d, ["MutableSubgrid::merge_%s_in_place" % _D] + _MS_ACC,
+        "same, f32", "bounded:" + _TB + _GUARD, tier="thorough", timeout=1200)
+
+# ---- SharedSubgrid (C02) ----
+_SS_ACC = ["SharedSubgrid::try_get_ref", "SharedSubgrid::get_ref", "SharedSubgrid::get", "SharedSubgrid::try_get_row", "SharedSubgrid::get_row", "SharedSubgrid::get_ptr_unchecked"]
+_SS_ACC_C = ("; the result has exactly the specified (ptr, width, height, stride); its accessors (try_get_ref/get_ref/get/try_get_row/get_row) at a symbolic (x, y): Some iff inside, "
+             "address == base + off + y*stride + x < len, value == that buffer element, CBMC pointer checks on the dereference")
+def _ss(id, harness, fns, contract, kind, **kw):
+    K("gr.ss." + id, ["C02"], "jxl-grid", GR_SS, GR_SSM, harness, kind, fns, contract, **kw)
+for _sfx, _tier, _b, _to in _MS_VARIANTS:
+    _k = _sg_bound(_b); _kw = dict(tier=_tier, timeout=_to)
+    _ss("from_buf_" + _sfx, "ss_from_buf_" + _sfx, ["SharedSubgrid::from_buf", "SharedSubgrid::new"] + _SS_ACC,
+        "requires width, height > 0, width <= stride, stride*(h-1)+w <= len (stride: all of usize for one-row grids); ensures geometry (0, w, h, stride) inside the buffer" + _SS_ACC_C, _k, **_kw)
+    _ss("subgrid_" + _sfx, "ss_subgrid_" + _sfx, ["SharedSubgrid::subgrid"] + _SS_ACC,
+        "requires left <= right <= width, top <= bottom <= height, all Bound combinations; ensures result == sub-rectangle (left, top, right-left, bottom-top) (gr.ms.lemma_sub: inside the parent)"
+        + _SS_ACC_C + _IN_ALLOC, _k, **_kw)
+    for _d, _D in [("h", "horizontal"), ("v", "vertical")]:
+        _ss("split_%s_%s" % (_d, _sfx), "ss_split_%s_%s" % (_d, _sfx), ["SharedSubgrid::split_" + _D] + _SS_ACC,
+            "requires at <= width/height; ensures the two parts are exactly the rectangles of gr.ms.lemma_split_partition (inside the parent, covering it)" + _SS_ACC_C + _IN_ALLOC, _k, **_kw)
+for _sfx, _tier, _b, _to in [("q", "quick", _QB, 300), ("t", "thorough", _TB, 1200)]:
+    _kw = dict(tier=_tier, timeout=_to)
+    _ss("as_i32_" + _sfx, "ss_as_i32_" + _sfx, ["SharedSubgrid::as_i32"] + _SS_ACC, "same geometry, same elements reinterpreted bit for bit", _sg_bound(_b), **_kw)
+    _ss("as_vectored_" + _sfx, "ss_as_vectored_" + _sfx, ["SharedSubgrid::as_vectored", "SimdVector::available (__m128)"] + _SS_ACC,
+        "Some iff origin 16-byte aligned and width, stride multiples of 4; vector (x, y) starts at f32 element (4x, y), all 4 lanes inside the buffer (gr.ms.lemma_vectored); "
+        "16-byte reads of __m128 elements under CBMC pointer checks (plain pointer cast, no intrinsics)", _sg_bound(_b), **_kw)
+_ss("from_buf_rejects", "ss_from_buf_rejects", ["SharedSubgrid::from_buf"], "from_buf returns only for width, height > 0, width <= stride and an area inside the buffer", _gk)
+_ss("subgrid_rejects", "ss_subgrid_rejects", ["SharedSubgrid::subgrid"], "subgrid returns only for ranges inside the grid", _gk)
+_ss("split_rejects", "ss_split_rejects", ["SharedSubgrid::split_horizontal", "SharedSubgrid::split_vertical"], "split_* return only for at <= width/height", _gk)
+
+# ---- AlignedGrid: owner of tracked memory (C13) and index arithmetic (C02) ----
+_AG_B = "bounded:width, height <= 3 (the buffer is really allocated); complete over the budget (all of usize) and sample values"
+_AG_C = ("bytes = (width*height + 31/size_of::<S>()) * size_of::<S>() (= the Vec's capacity in bytes); Ok => exactly bytes taken from the tracker by one handle held by the grid, "
+         "given back exactly when the grid is dropped; Err(e) => budget unchanged, budget < bytes, e.bytes() == bytes; budget observed through shrink_limit probes (public API)")
+for _t in ["i16", "i32"]:
+    K("gr.ag.with_tracker_" + _t, ["C13", "C01"], "jxl-grid", GR_LIB, GR_LIBM, "ag_with_tracker_" + _t, _AG_B,
+      ["AlignedGrid::with_alloc_tracker", "AllocTracker::alloc", "AllocHandle::drop"], _AG_C + " [S = %s]" % _t, attrs=[])
+    K("gr.ag.try_clone_" + _t, ["C13", "C01"], "jxl-grid", GR_LIB, GR_LIBM, "ag_try_clone_" + _t, _AG_B,
+      ["AlignedGrid::try_clone", "AlignedGrid::empty_aligned", "AlignedGrid::clone_untracked", "AlignedGrid::tracker", "AllocHandle::tracker"],
+      "clone of a tracked grid: " + _AG_C + "; same samples; clone_untracked records nothing; a failed clone leaves the source's accounting intact [S = %s]" % _t)
+    K("gr.ag.accessors_" + _t, ["C02"], "jxl-grid", GR_LIB, GR_LIBM, "ag_accessors_" + _t, "bounded:width, height <= 3; complete over coordinates (2-bit probes) and sample values",
+      ["AlignedGrid::try_get_ref", "AlignedGrid::try_get_mut", "AlignedGrid::get", "AlignedGrid::get_ref", "AlignedGrid::get_mut", "AlignedGrid::try_get_row",
+       "AlignedGrid::try_get_row_mut", "AlignedGrid::get_row", "AlignedGrid::get_row_mut", "AlignedGrid::buf", "AlignedGrid::buf_mut", "AlignedGrid::as_subgrid", "AlignedGrid::as_subgrid_mut",
+       "MutableSubgrid::from(&mut AlignedGrid)", "SharedSubgrid::from(&AlignedGrid)"],
+      "Some iff inside; sample (x, y) is buf()[y*width + x] (offset-adjusted, 32-byte aligned origin); rows are buf()[y*width..][..width]; as_subgrid(_mut) view the same samples with stride == width "
+      "(as_subgrid only for non-zero dimensions: SharedSubgrid::from_buf refuses them)")
+K("gr.ag.without_tracker", ["C13", "C01"], "jxl-grid", GR_LIB, GR_LIBM, "ag_without_tracker_i16", _AG_B,
+  ["AlignedGrid::with_alloc_tracker", "AlignedGrid::try_clone", "AlignedGrid::empty"], "no tracker: never refused, no handle; clones of untracked grids are untracked and cannot fail")
